@@ -613,3 +613,44 @@ _add("C20", "compatible retypings are reported (compatibleRetypeSeverity re-extr
             "schemas against the schema built from their own SDL; defaults enter the model as GraphQL values of their position (gql_canon_default, independent "
             "of the library's printer).",
      "Known findings G1, G4 (pinned). Repaired: G2, G3, G5, Python-equal defaults, subclass kinds, hash-dependent order, defaults as GraphQL values.")
+
+
+# ---------------------------------------------------------------------------------------------------------------
+# C11 as built after the deepening rounds (replaces the texts above; obligation names are appended by manifest_gen.py).
+# ---------------------------------------------------------------------------------------------------------------
+CHECKS["C11"].update({
+    "text": ("Lean model of build_schema (Sdl.lean: _collect_definitions, ASTTypeBuilder.build_* / extend_* with both caches as by-name lookups, "
+             "additional_types as pre-loaded cache entries, default values through value_from_ast incl. the re-evaluation after extension, "
+             "_deprecation_reason, circular-reference guard, roots from the schema block / default names / extend schema, _build_type_map closure, "
+             "ignore_extensions) and of the PUBLIC extend_schema(schema, doc, strict) (SdlExtend.lean: _collect_extensions strict and lax, new "
+             "definitions built then extended, roots kept). Specification Spec/SdlSpec.lean: Declared doc (definitions, then every extension block "
+             "merged into its target in document order, defaults coerced over the merged definitions), SdlValid. Headline theorems, all full on the "
+             "by-name model: build_exact_spec / build_exact_valid (a document satisfying the rules of the specification - SdlValid + kind rules of "
+             "eager references, which are derived from C13's ValidSchema in build_exact_valid, + root rules - and the residue BaseDefaults / "
+             "SelfDefaults / noThunkCycle builds, and the schema is exactly Declared doc; residue_necessary: three witnesses show each residue "
+             "premise cannot be dropped, findings S8 and S1b), build_exact_final (same from SdlOK; noEagerCycleBase and rootsOk derived), "
+             "build_perm_final / build_perm_spec (validity of ONE document suffices, only the order of the extension blocks of each target is kept; "
+             "ext_order_matters shows that is necessary), build_rejects / no_other_branch (every rejection, any flags, any supplied types, is "
+             "SDLError / ExtensionError / SchemaError or the RecursionError of S1b; build_internal_of_thunkCycle says when), build_ignoreExtensions "
+             "(ignore_extensions=True is the build of the document without its extend blocks, every document, every additional_types), "
+             "extend_exact_strict / extend_exact_lax / extend_exact_lax_general (extend_schema(build(base), B) for ANY document B the collection "
+             "accepts returns exactly the content base ++ B declares; lax_is_strict_on_kept: strict=False is strict=True on the kept part), "
+             "extend_eq_build, extend_perm, extend_rejects, strict_refines, collect_strict_exact, extendSchema_is_public; refutations: "
+             "build_exact_refuted (the unrestricted statement, finding S8), extend_roots_not_rederived (extend_schema never re-derives default "
+             "roots: the side condition of extend_exact_* is necessary). Tied by the correspondence of canonical schema dumps (walk through public "
+             "attributes) and rejection classes on generated SDL (six kinds, wrappers, defaults of every input kind, descriptions, deprecations, "
+             "directives, schema blocks, extensions split arbitrarily over extend blocks, ALL definition orders of small documents, both flags, "
+             "additional_types incl. enums with internal values and types referenced from extension blocks only), 38 labelled single-defect documents "
+             "with validation ENABLED, 36 named extension documents x strict/lax for the public extend_schema, and the direct oracle: dump of the "
+             "built schema == the declared content known by construction (reference coercion in Python), library error class on every labelled defect."),
+    "note": ("Trusted: Lean kernel; generators; gen/sdl.py (ref_coerce, declared, doc_json). Lazy type thunks are by-name references (stack overflows "
+             "from eager recursion are seen by the correspondence and the S1b probe only). Schema.validate() is not part of the model (C13): documents "
+             "rejected by validation only are compared with validation disabled; the kind rules enter build_exact_valid through C13's ValidSchema. "
+             "Modelled but not in the exactness theorems until this round: additional_types (build_rejects / build_ignoreExtensions quantify over "
+             "them, build_exact_* took additional = []). Only exercised by the correspondence / oracle: schema_directives= (apply_schema_directives, "
+             "within=), Schema objects assembled in Python passed to extend_schema, nodes lists. no_other_branch_partial (vacuous) and "
+             "build_exact_partial are kept for name stability and superseded by no_other_branch / build_exact_final. Known findings S8, S1b, S10, "
+             "C11/2, C11/3, C11/7."),
+    "technique": ("Lean 4 proof over the builder model (exactness from the specification's rules, permutation, rejection classes, public "
+                  "extend_schema strict/lax) + schema-dump correspondence + declared-content and labelled-defect oracles"),
+})
